@@ -18,7 +18,7 @@ from ..engine import Analysis, describe_path
 from ..extmodel import VOL_INVALID
 from ..frontend import AnalysisError, unparse
 from ..report import RuleResult
-from ..values import Const, DictV, EnumMemV, ExtObj, ExtV, ListV, ModV, Sym, TupleV, V
+from ..values import Const, DictV, EnumMemV, ExtObj, ExtV, ListV, ModV, Sym, TupleV, V  # noqa: F401
 from . import common
 
 PROP = "C03"
@@ -153,51 +153,66 @@ def _raises_invalid(node) -> bool:
     return False
 
 
+def validator_worker(analysis: Analysis, qual: str) -> dict:
+    """All abstract paths of a function validator applied to a symbolic string."""
+    ctx = analysis.context(analysis.versions[-1], "serial", "sync")
+    it = analysis.new_interp(ctx)
+    st = it.new_state()
+    value = Sym(("root", "value"), "str")
+    outs = analysis.run_root(it, qual, [value], None, st)
+    lenkey = ("u", f"len({value.key()!r})")
+    rows = []
+    for out in outs:
+        kind, s, v = out
+        len_eq = None
+        for f in s.facts:
+            if f[0] == "atom" and f[1][0] == "cmp" and f[1][2] == lenkey and f[1][3][0] == "c":
+                op, n, truth = f[1][1], f[1][3][2], f[2]
+                if (op == "NotEq" and not truth) or (op == "Eq" and truth):
+                    len_eq = n
+            if f[0] == "atom" and f[1][0] == "eq" and lenkey in (f[1][1], f[1][2]) and f[2] is True:
+                other = f[1][2] if f[1][1] == lenkey else f[1][1]
+                if other[0] == "c":
+                    len_eq = other[2]
+        unhex = [e for e in s.events if e.kind == "call" and e.name == "binascii.unhexlify" and e.args and e.args[0].key() == value.key()]
+        splits = [e for e in s.events if e.kind == "call" and e.name == "str.split" and isinstance(e.recv, V) and e.recv.key() == value.key() and e.args and isinstance(e.args[0], Const)]
+        floats = 0
+        for e in s.events:
+            if e.kind == "call" and e.name == "vol.validate" and isinstance(e.recv, ExtObj) and e.recv.cls == "vol.Coerce" and e.recv.args and isinstance(e.recv.args[0], ExtV) and e.recv.args[0].name == "builtins.float":
+                if e.args and "unpack" in getattr(e.args[0], "label", ""):
+                    floats += 1
+        rows.append({"kind": kind, "exc": v.cls.__name__ if kind == "raise" else None, "exc_mod": v.cls.__module__ if kind == "raise" else None, "what": v.what if kind == "raise" else None, "ret_is_value": kind == "val" and isinstance(v, V) and v.key() == value.key(), "len_eq": len_eq, "unhex": len(unhex), "split_sep": splits[0].args[0].value if splits else None, "floats": floats, "unpacked": max([0] + [int(getattr(e.args[0], "label", "unpack-1:")[6]) + 1 for e in s.events if e.kind == "call" and e.name == "vol.validate" and e.args and getattr(e.args[0], "label", "").startswith("unpack")]), "witness": describe_path(out)})
+    return {"qual": qual, "rows": rows}
+
+
 def validator_bodies(analysis: Analysis, res: RuleResult) -> None:
-    p = analysis.p
-    # length-checked hex colours
-    for qual, length in (("const_15:validate_v_rgb", 6), ("const_15:validate_v_rgbw", 8)):
-        info = _func(analysis, qual)
-        arg = info.node.args.args[0].arg
-        found = None
-        for n in ast.walk(info.node):
-            if isinstance(n, ast.If) and isinstance(n.test, ast.Compare) and len(n.test.ops) == 1:
-                left, right = n.test.left, n.test.comparators[0]
-                if unparse(left) == f"len({arg})" and isinstance(right, ast.Constant) and _raises_invalid(n):
-                    found = (type(n.test.ops[0]).__name__, right.value)
-        ok = found == ("NotEq", length)
-        res.add("C03-R3b", f"{qual}: rejects every length other than {length}", ok, common.where(analysis, info, info.node), f"guard `len({arg}) != {length}` raises vol.Invalid" if ok else f"length guard found: {found}")
-        delegates = any(isinstance(c.func, ast.Name) and c.func.id == "validate_hex" and c.args and unparse(c.args[0]) == arg for c in common.calls_in(info.node))
-        res.add("C03-R3b", f"{qual}: delegates to the hex check", delegates, common.where(analysis, info, info.node), "returns validate_hex(value)")
-    info = _func(analysis, "const_15:validate_hex")
-    arg = info.node.args.args[0].arg
-    ok = False
-    for t in [n for n in ast.walk(info.node) if isinstance(n, ast.Try)]:
-        in_body = any(unparse(c.func).endswith("unhexlify") and c.args and unparse(c.args[0]) == arg for s in t.body for c in common.calls_in(s))
-        if in_body and t.handlers and all(_raises_invalid(h) for h in t.handlers):
-            ok = True
-    res.add("C03-R3b", "const_15:validate_hex: unhexlify(value) failures become vol.Invalid", ok, common.where(analysis, info, info.node), "binascii.unhexlify inside try, handler raises vol.Invalid")
-    info = _func(analysis, "const_20:validate_gps")
-    arg = info.node.args.args[0].arg
-    parts = None
-    for n in ast.walk(info.node):
-        if isinstance(n, ast.Assign) and isinstance(n.targets[0], (ast.Tuple, ast.List)) and isinstance(n.value, ast.Call) and unparse(n.value.func) == f"{arg}.split" and n.value.args and isinstance(n.value.args[0], ast.Constant) and n.value.args[0].value == ",":
-            parts = [unparse(e) for e in n.targets[0].elts]
-    okp = parts is not None and len(parts) == 3
-    res.add("C03-R3b", "const_20:validate_gps: exactly three comma separated fields", okp, common.where(analysis, info, info.node), f"fields {parts}")
-    if okp:
-        floated = set()
-        for c in common.calls_in(info.node):
-            txt = unparse(c.func)
-            if (txt in ("vol.Coerce(float)", "float")) and c.args:
-                floated.add(unparse(c.args[0]))
-        res.add("C03-R3b", "const_20:validate_gps: each field must parse as float", set(parts) <= floated, common.where(analysis, info, info.node), f"float-checked: {sorted(floated)}")
-        caught = set()
-        for t in [n for n in ast.walk(info.node) if isinstance(n, ast.Try)]:
-            for h in t.handlers:
-                if _raises_invalid(h) and h.type is not None:
-                    caught |= {unparse(e) for e in (h.type.elts if isinstance(h.type, ast.Tuple) else [h.type])}
-        res.add("C03-R3b", "const_20:validate_gps: wrong field count / non-float become vol.Invalid", {"ValueError", "vol.Invalid"} <= caught or "Exception" in caught, common.where(analysis, info, info.node), f"handler catches {sorted(caught)}")
+    """R3b: the named function validators, judged on all their abstract paths (robust to helper extraction)."""
+    quals = ["const_15:validate_hex", "const_15:validate_v_rgb", "const_15:validate_v_rgbw", "const_20:validate_gps"]
+    sums = {s["qual"]: s for s in common.pmap(analysis, validator_worker, quals)}
+    for qual, length in (("const_15:validate_hex", None), ("const_15:validate_v_rgb", 6), ("const_15:validate_v_rgbw", 8)):
+        info = analysis.p.func(qual)
+        w = common.where(analysis, info, info.node)
+        rows = sums[qual]["rows"]
+        acc = [r for r in rows if r["kind"] == "val"]
+        if not acc:
+            res.add("C03-R3b", f"{qual}: accepts well-formed values", False, w, "no accepting path")
+            continue
+        ok_hex = all(r["unhex"] >= 1 and r["ret_is_value"] for r in acc)
+        res.add("C03-R3b", f"{qual}: a value is accepted only after binascii.unhexlify(value) succeeded, and returned unchanged", ok_hex, w, "hex check on every accepting path" if ok_hex else "some accepting path does not run the hex check on the value", next((r["witness"] for r in acc if not (r["unhex"] >= 1 and r["ret_is_value"])), None))
+        if length is not None:
+            ok_len = all(r["len_eq"] == length for r in acc)
+            res.add("C03-R3b", f"{qual}: rejects every length other than {length}", ok_len, w, f"every accepting path has len(value) == {length}" if ok_len else f"accepting path with length facts {[r['len_eq'] for r in acc]}", next((r["witness"] for r in acc if r["len_eq"] != length), None))
+        bad = [r for r in rows if r["kind"] == "raise" and r["exc"] not in ("Invalid", "MultipleInvalid")]
+        res.add("C03-R3b", f"{qual}: failures become vol.Invalid", not bad, w, "" if not bad else f"{bad[0]['exc']}: {bad[0]['what']}", bad[0]["witness"] if bad else None)
+    qual = "const_20:validate_gps"
+    info = analysis.p.func(qual)
+    w = common.where(analysis, info, info.node)
+    rows = sums[qual]["rows"]
+    acc = [r for r in rows if r["kind"] == "val"]
+    ok = bool(acc) and all(r["split_sep"] == "," and r["floats"] == 3 and r["ret_is_value"] for r in acc)
+    res.add("C03-R3b", f"{qual}: exactly three comma separated fields, each checked as float", ok, w, "split(',') into three, three Coerce(float) checks on every accepting path" if ok else f"accepting paths: {[(r['split_sep'], r['floats']) for r in acc]}", next((r["witness"] for r in acc if not (r["split_sep"] == "," and r["floats"] == 3)), None))
+    bad = [r for r in rows if r["kind"] == "raise" and r["exc"] not in ("Invalid", "MultipleInvalid")]
+    res.add("C03-R3b", f"{qual}: wrong field count / non-float become vol.Invalid", not bad, w, "" if not bad else f"{bad[0]['exc']}: {bad[0]['what']}", bad[0]["witness"] if bad else None)
     info = _func(analysis, "validation:is_version")
     floor = None
     for n in ast.walk(info.node):
